@@ -68,6 +68,7 @@ func runMain(args []string) {
 	concrete := fs.String("concrete", "", "comma-separated concrete nondet vector (concrete mode)")
 	jsonOut := fs.Bool("json", false, "print the raw result JSON")
 	warm := fs.String("warm", "", "warm-up function run once before the snapshot")
+	concret := fs.String("concret", "", "comma-separated functions whose result is concretised eagerly")
 	fs.Parse(args)
 	if *prof != "" {
 		f, _ := os.Create(*prof)
@@ -83,6 +84,11 @@ func runMain(args []string) {
 	for _, s := range strings.Split(*initPkgs, ",") {
 		if s != "" {
 			job.InitPkgs = append(job.InitPkgs, s)
+		}
+	}
+	for _, s := range strings.Split(*concret, ",") {
+		if s != "" {
+			job.ConcRet = append(job.ConcRet, s)
 		}
 	}
 	for _, kv := range strings.Split(*sets, ",") {
@@ -117,7 +123,7 @@ func runMain(args []string) {
 }
 
 func printResult(r *Result, loadS float64) {
-	fmt.Printf("harness=%s load=%.2fs explore=%.2fs paths=%d forks=%d steps=%d concretize=%d domDecided=%d\n", r.Harness, loadS, r.WallS, r.Paths, r.Forks, r.Steps, r.Concretize, r.DomDecided)
+	fmt.Printf("harness=%s load=%.2fs explore=%.2fs paths=%d forks=%d steps=%d concretize=%d domDecided=%d cacheHits=%d\n", r.Harness, loadS, r.WallS, r.Paths, r.Forks, r.Steps, r.Concretize, r.DomDecided, r.CacheHits)
 	fmt.Printf("asserts=%d discharged=%d unknown=%d | solver queries=%d sat=%d unsat=%d unknown=%d time=%.2fs\n", r.Asserts, r.Discharged, r.Unknown, r.Queries, r.Sat, r.Unsat, r.SolverUnknown, r.SolverS)
 	if r.Err != "" {
 		fmt.Printf("ENGINE ERROR: %s\n", r.Err)
